@@ -125,8 +125,12 @@ void SelectFdEvent::OnEventCallback(bool is_readable, bool is_writable, bool is_
 
     //! 要先复制一份，因为在for中很可能会改动到d->fd_events，引起迭代器失效问题
     auto tmp = data->fd_events;
-    for (auto event : tmp)
-        event->onEvent(tbox_events);
+    for (auto event : tmp) {
+        //! an earlier callback of this loop may have disabled or deleted this event:
+        //! only the ones still in fd_events are alive and enabled
+        if (std::find(data->fd_events.begin(), data->fd_events.end(), event) != data->fd_events.end())
+            event->onEvent(tbox_events);
+    }
 }
 
 void SelectFdEvent::onEvent(short events)
